@@ -14,7 +14,7 @@ from hypergraph.graph.validation import GraphConfigError  # noqa: E402
 
 FLAWS = ["unknown_target", "unknown_target_multi", "dup_producer", "dup_node", "bad_node_name", "bad_output_name", "bad_graph_name",
          "inconsistent_default", "wait_for_unknown", "edge_unknown_node", "edge_unknown_value", "type_mismatch", "missing_annotation",
-         "gate_self_target", "dup_producer_two_names"]
+         "gate_self_target", "dup_producer_two_names", "dup_producer_two_gates"]
 
 
 def typed_chain(rng: random.Random) -> dict:
@@ -47,6 +47,22 @@ def typed_chain(rng: random.Random) -> dict:
         wrapper = {"name": "w", "kind": "graph", "inner": 0, "inRen": [], "outRen": out_ren}
         return {"program": [inner, {"name": "g1", "nodes": [wrapper, b, nodes[2]], "bound": [], "strict": True}], "values": [["x", 1]]}
     return {"program": [{"name": "g0", "nodes": nodes, "bound": [], "strict": True}], "values": [["x", 1]]}
+
+
+def two_gate_program(rng: random.Random) -> dict:
+    """Two INDEPENDENT exclusive gates, each in front of its own branch nodes (if/else or single-target route), all outputs distinct."""
+    nodes: list[dict] = []
+    for g, inp in (("ga", "ia"), ("gb", "ib")):
+        t1, t2 = f"{g}_l", f"{g}_r"
+        if rng.random() < 0.5:
+            nodes.append({"name": g, "kind": "ifelse", "params": [[inp, None]], "targets": [t1, t2], "body": {"b": "lt", "k": 1}, "defaultOpen": rng.random() < 0.7})
+        else:
+            nodes.append({"name": g, "kind": "route", "params": [[inp, None]], "targets": [t1, t2], "multiTarget": False, "fallback": None,
+                          "defaultOpen": rng.random() < 0.7, "body": {"b": "table", "rows": [[0, t1]], "dflt": t2}})
+        for t in (t1, t2):
+            nodes.append({"name": t, "kind": "fn", "params": [["x", None]], "dataOuts": [f"v_{t}"], "body": {"b": "tag", "t": t}})
+    rng.shuffle(nodes)
+    return {"program": [{"name": "g0", "nodes": nodes, "bound": []}], "values": [["ia", 0], ["ib", 1], ["x", 2]]}
 
 
 def _find(nodes: list[dict], name: str) -> dict | None:
@@ -109,6 +125,30 @@ def inject(rng: random.Random, program: list[dict], flaw: str, gi: int) -> list[
         a["inRen"] = list(a.get("inRen", [])) + [["fb_in", o1]]
         b.setdefault("params", []).append(["fw_in", {"d": 0}])
         b["inRen"] = list(b.get("inRen", [])) + [["fw_in", o0]]
+    elif flaw == "dup_producer_two_gates":
+        # two producers of one name sitting under DIFFERENT, independent gates: not exclusive (both gates may select their branch)
+        excl = [gt for gt in gates if gt["kind"] == "ifelse" or not gt.get("multiTarget")]
+        pairs = []
+        for ga in excl:
+            for gb in excl:
+                if ga["name"] >= gb["name"]:
+                    continue
+                for ta in ga["targets"]:
+                    for tb in gb["targets"]:
+                        na, nb = _find(nodes, ta), _find(nodes, tb)
+                        if na and nb and ta != tb and na["kind"] == "fn" and nb["kind"] == "fn" and na.get("dataOuts") and nb.get("dataOuts") \
+                                and ta not in gb["targets"] and tb not in ga["targets"] \
+                                and not any(ta in o["targets"] and tb in o["targets"] for o in gates):
+                            pairs.append((na, nb))
+        pairs = [(x, y) for x, y in pairs if not _reaches(nodes, x["name"], y["name"]) and not _reaches(nodes, y["name"], x["name"])
+                 and not _reaches(nodes, next(g_["name"] for g_ in excl if x["name"] in g_["targets"]), y["name"])
+                 and not _reaches(nodes, next(g_["name"] for g_ in excl if y["name"] in g_["targets"]), x["name"])]
+        if not pairs:
+            return None
+        x, y = rng.choice(pairs)
+        y["dataOuts"] = [x["dataOuts"][0]] + y["dataOuts"][1:]
+        if y["body"]["b"] == "multi" and len(y["dataOuts"]) == 1:
+            y["body"] = {"b": "tag", "t": y["name"]}
     elif flaw == "dup_node":
         if len(nodes) < 2:
             return None
@@ -249,16 +289,33 @@ class C19(Prop):
                 yield {"kind": "types", "rows": rows, "cols": cols}
                 continue
             r = rng.random()
+            if r < 0.06:
+                c = two_gate_program(rng)
+                if rng.random() < 0.4:
+                    # the same inside a nested graph
+                    c["program"] = [c["program"][0], {"name": "outer", "nodes": [{"name": "w", "kind": "graph", "inner": 0}], "bound": []}]
+                program = c["program"]
+                flawed = inject(rng, program, "dup_producer_two_gates", 0)
+                yield {"kind": "struct", "program": program, "flaw": "dup_producer_two_gates" if flawed is not None else None, "flawed": flawed, "gi": 0,
+                       "late": rng.random() < 0.5}
+                continue
             if r < 0.4:
                 c = gen.gen_dag_program(rng, max_nodes=6, depth=rng.choice([0, 0, 1]), allow_fed_default=False)
             elif r < 0.8:
-                c = gen.gen_gated_dag(rng)
+                c = gen.gen_gated_dag(rng, max_nodes=rng.choice([8, 8, 12]))
             else:
                 c = typed_chain(rng)
             program = c["program"]
             gi = rng.randrange(len(program))
             flaw, flawed = None, None
-            for flaw in rng.sample(FLAWS, len(FLAWS)):
+            order = rng.sample(FLAWS, len(FLAWS))
+            if rng.random() < 0.6:
+                # flaw classes that need a particular structure are tried first (the generic ones apply almost everywhere)
+                rare = ["dup_producer_two_gates", "dup_producer_two_names", "inconsistent_default", "type_mismatch", "missing_annotation",
+                        "unknown_target_multi", "edge_unknown_node", "edge_unknown_value", "dup_producer", "gate_self_target", "unknown_target"]
+                rng.shuffle(rare)
+                order = rare + [f for f in order if f not in rare]
+            for flaw in order:
                 flawed = inject(rng, program, flaw, gi)
                 if flawed is not None:
                     break
